@@ -3,6 +3,7 @@
   (`Generated/Surface.lean`), against the surface the model implements — see SurfaceDefs.lean.
 -/
 import Axelar.Proofs.SurfaceDefs
+import Axelar.Generated.Constants
 namespace Axelar.Surface
 open Axelar Generated
 
@@ -41,4 +42,11 @@ theorem its_storage_no_alias : noAlias itsStorage = true ∧ keysNodup itsStorag
 theorem its_storage_keys : itsStorage.map (·.key) = ["account_roles", "approved_destination_minters", "chain_name", "chain_name_hash", "gas_service", "gateway", "proposed_roles", "token_manager", "token_manager_address", "transfer_with_data_lock", "trusted_address"] := by decide
 
 
+end Axelar.Surface
+
+namespace Axelar.Surface
+/-- **Gas reserved for the transfer-with-data callback** (C08: the callback that takes the tokens back must not run
+    out of gas; not exhibitable in the debug VM, tied statically) -/
+theorem its_callback_gas_reserved :
+    Generated.ITS_EXECUTE_WITH_TOKEN_CALLBACK_GAS ≥ 20000000 ∧ Generated.ITS_KEEP_EXTRA_GAS ≥ 15000000 := by decide
 end Axelar.Surface
